@@ -663,7 +663,8 @@ class GroupBy:
             if isinstance(orig_type, pl.DataType):
                 series = pl.Series(arr, dtype=orig_type)
                 arrow = series.to_arrow()
-                arr = arrow.to_numpy()
+                # a result holding nulls (NaT) has no zero-copy numpy view
+                arr = arrow.to_numpy(zero_copy_only=False)
                 dtype = pd.ArrowDtype(arrow.type)
             else:
                 arr = arr.view(int)
